@@ -180,7 +180,7 @@ func GeneratedC20Case(seed uint64) C20Case {
 	} else {
 		for {
 			i := g.r.IntN(len(poolDocs))
-			if (wild && !poolDocSafe[i]) || poolDocs[i].NoGen {
+			if (wild && !poolDocSafe[i]) || poolDocs[i].NoGen || poolDocs[i].NoEnum {
 				continue
 			}
 			doc = poolDocs[i].JSON
@@ -212,6 +212,7 @@ type C20Finding struct {
 // EnumStats counts what an enumeration covered.
 type EnumStats struct {
 	Cases        int
+	Sampled      int // cases whose crash points were sampled rather than enumerated
 	Executions   int // faulted executions
 	Observable   int // distinct (case, model, k) at which the fault fired observably
 	Unobservable int
@@ -242,6 +243,15 @@ func EnumerateC20(t *testing.T, c C20Case, every int, es *EnumStats) ([]C20Findi
 		return nil, err
 	}
 	es.Cases++
+	// A generated path can be quadratic or worse in the document: beyond a
+	// few thousand crash points, enumerate every index below 64, the last
+	// eight and an even sample in between (as for the scaling family).
+	if n := ref.Polls + ref.Steps; every <= 1 && n > 4000 {
+		every = n / 2000
+	}
+	if every > 1 {
+		es.Sampled++
+	}
 	var findings []C20Finding
 	try := func(f Fault) error {
 		fc := f
